@@ -1,10 +1,25 @@
 """P-taint (backward): data provenance of a local inside one function.
 
-origins(local) = set of tokens ('call', callee path) / ('param', name) / ('const',) reached by following
-*all* definitions of the local backwards through assignments, aggregates, references, casts and
-call results (a call result derives from the callee and from all its arguments).  Data flow only:
-conditions that merely control whether a statement runs do not contribute."""
+origins(local [, at_block]) = set of tokens
+   ('call', callee path) ('calldest', callee path, dest type) ('param', name) ('const',)
+   ('closure', path) ('fld', owner ADT, field name)
+reached by following definitions of the local backwards through assignments, aggregates,
+references, casts and call results (a call result derives from the callee and from all its
+arguments).  Data flow only: conditions that merely control whether a statement runs do not
+contribute.  Flow-sensitive in one respect: a definition in block D is only considered for a use in
+block U if U is reachable from D in the CFG (or D == U), so a store that can only happen *after* a
+read does not contribute to that read.  Definitions into a projection of a local (field stores) are
+considered only for reads whose projection path is compatible (one a prefix of the other)."""
 from facts import Operand, Place
+
+
+def _fpath(place):
+    return tuple(e['i'] for e in place.p if e['k'] == 'f')
+
+
+def _compatible(a, b):
+    n = min(len(a), len(b))
+    return a[:n] == b[:n]
 
 
 class Prov:
@@ -13,9 +28,15 @@ class Prov:
         self.body = cfg.body
         self._defs_all = None
         self._memo = {}
+        self._reach = {}
+
+    def reach(self, b):
+        if b not in self._reach:
+            self._reach[b] = self.cfg.reachable_from(b)
+        return self._reach[b]
 
     def defs_all(self):
-        """local -> list of ('stmt', Stmt) / ('call', Term) for assignments to the local or any projection of it"""
+        """local -> list of (kind, Stmt|Term, block index, field path of the defined place)"""
         if self._defs_all is None:
             d = {}
             for b in self.body.blocks:
@@ -23,35 +44,37 @@ class Prov:
                     continue
                 for s in b.stmts:
                     if s.k == 'assign':
-                        d.setdefault(s.place.l, []).append(('stmt', s))
+                        d.setdefault(s.place.l, []).append(('stmt', s, b.i, _fpath(s.place)))
                 if b.term.k == 'call':
-                    d.setdefault(b.term.dest.l, []).append(('call', b.term))
+                    d.setdefault(b.term.dest.l, []).append(('call', b.term, b.i, _fpath(b.term.dest)))
             self._defs_all = d
         return self._defs_all
 
-    def origins(self, l, seen=None):
-        if l in self._memo:
-            return self._memo[l]
+    def origins(self, l, seen=None, at=None, fpath=()):
+        key = (l, at, fpath)
+        if key in self._memo:
+            return self._memo[key]
         seen = seen if seen is not None else set()
-        if l in seen:
+        if (l, at) in seen:
             return set()
-        seen.add(l)
+        seen.add((l, at))
         body = self.body
         out = set()
         if 1 <= l <= body.arg_count:
             out.add(('param', body.name_of(l) or 'arg%d' % l))
-        for kind, d in self.defs_all().get(l, []):
+        for kind, d, bi, dpath in self.defs_all().get(l, []):
+            if at is not None and bi != at and at not in self.reach(bi):
+                continue
+            if not _compatible(dpath, fpath):
+                continue
             if kind == 'stmt':
                 rv = d.rv
-                ops = d.rv_operands()
                 rp = d.rv_place()
                 if rp is not None:
-                    out |= self.origins(rp.l, seen)
-                    for e in rp.p:
-                        if e['k'] == 'idx':
-                            pass
-                for o in ops:
-                    out |= self.operand(o, seen)
+                    out |= self.origins(rp.l, seen, bi, _fpath(rp))
+                    out |= self.fields(rp)
+                for o in d.rv_operands():
+                    out |= self._operand_at(o, seen, bi)
                 if rv['k'] == 'agg' and rv.get('ak') == 'closure':
                     out.add(('closure', rv['closure']))
             else:
@@ -59,18 +82,30 @@ class Prov:
                 out.add(('call', c.path if c else '<indirect>'))
                 out.add(('calldest', c.path if c else '<indirect>', d.dest.t))
                 for a in d.args:
-                    out |= self.operand(a, seen)
-        seen.discard(l)
-        if len(seen) == 0:
-            self._memo[l] = out
+                    out |= self._operand_at(a, seen, bi)
+        seen.discard((l, at))
+        if not seen:
+            self._memo[key] = out
         return out
 
-    def operand(self, o, seen=None):
+    def fields(self, place):
+        """('fld', owner, name) tokens for adlt struct fields read through this place"""
+        out = set()
+        for e in place.p:
+            if e['k'] == 'f' and e.get('o', '').startswith('adlt'):
+                out.add(('fld', e['o'], e['n']))
+        return out
+
+    def _operand_at(self, o, seen, at):
         if o.is_const:
             return {('const',)}
         if o.place is None:
             return set()
-        return self.origins(o.place.l, seen if seen is not None else set())
+        return self.origins(o.place.l, seen, at, _fpath(o.place)) | self.fields(o.place)
+
+    def operand(self, o, seen=None, at=None):
+        """provenance of an operand; `at` = block index of the use (None: flow-insensitive)"""
+        return self._operand_at(o, seen if seen is not None else set(), at)
 
 
 def calls_in(tokens):
